@@ -41,6 +41,12 @@ EXPLANATION = (
     'the comparison core is found by role (method, Class.m(self,..), staticmethod or module function; operands bound by signature); Range.intersect is judged on the final '
     'bound and flag value per world. R3 also: the requirements iterable is walked at most once per path (typestate), and blanks before the operator must not select the '
     'operator (armed finding); R6: no call site uses the 3-tuple of version_compare_many as a truth value (armed finding). '
+    'Round 8: the normal form also folds operator.xx(a, b) into comparisons, a match of a regex that is a plain alternation of literals into the startswith chain '
+    '(m.group()/m.end()/`m is None` folded), `T[k]`/`T.get(k)` on constant dicts (module or local) with a literal key, NamedTuple/dataclass record fields, '
+    'functools.partial aliases of private helpers, staticmethod helpers, and inlines a helper that returns from inside a loop when the rest of the caller is terminal; '
+    'the comparison core may compare sort-key sequences (`comparator([key(c) for c in a], [key(c) for c in b])`: keys in order, then the length). '
+    'R3 also: an exit of version_compare_many without failed requirements reports success; R5 also: the condition range is reset between two branches of an if/elif chain; '
+    'R7: the version_compare method answers with the verdict of version_compare_many (range membership returned as the verdict is a violation). '
     'NOT decided: (a) if-clause narrowing is applied whatever the condition does with the result of version_compare (`not ..`, `.. or true`): the narrowed range is then '
     'not the set of versions that run the block - in scope of the property, but evaluate_if cannot see it and a rule would have to prescribe a design; '
     '(b) int() of a digit run longer than the interpreter limit raises ValueError (not an order property). '
